@@ -295,6 +295,16 @@ pub fn exercise<T: Full>(name: &str, rng: &mut StdRng, sink: &mut crate::gen::Si
                 sink.put(json!({"fam":"typed","name":"alt","ty":name,"val":val,"bytes":bytes(&enc),"alt":bytes(&alt),"obs":dec}));
             }
         }
+        if want == "sink" {
+            // C13: this value through its own Encode impl into bounded sinks that are too small, exactly big enough, one byte larger
+            let len = enc.len();
+            let mut caps = vec![0usize, 1, len / 2, len.saturating_sub(2), len.saturating_sub(1), len, len + 1];
+            caps.sort(); caps.dedup();
+            for kind in ["slice", "cslice", "cbox", "iowslice"] {
+                for cap in &caps { if let Some(ev) = crate::sinks::encode_value_event(kind, *cap, &v, &enc) { sink.put(ev) } }
+            }
+            continue
+        }
         if want == "cross" && !enc.is_empty() {
             // a strict prefix of the encoding decoded as the same type: the end-of-input class, nothing else
             let cuts: Vec<usize> = if enc.len() <= 6 { (0..enc.len()).collect() } else { vec![0, 1, rng.gen_range(0..enc.len()), enc.len() - 1] };
